@@ -167,7 +167,13 @@ func init() {
 			if !d.Mine(pi) {
 				continue
 			}
-			for _, fm := range modes {
+			// odd seeds: the very first observation of a value happens under an overriding formatter
+			// (anything the library remembers about a value must not outlive the override)
+			fmodes := modes
+			if (d.Seed+uint64(pi))%2 == 1 {
+				fmodes = []string{"stub", "default", "error", "default"}
+			}
+			for _, fm := range fmodes {
 				for _, pm := range modes {
 					d.Do(Ev{"op": "ovr.set", "pkg": p.pkg, "fmt": fm, "parse": pm})
 					for _, v := range p.vals {
@@ -195,6 +201,10 @@ func init() {
 				sizeDefaults(d)
 			}
 			d.Do(Ev{"op": "ovr.set", "pkg": p.pkg, "fmt": "default", "parse": "default"})
+			// everything restored: the values seen under the overrides, once more
+			for _, v := range p.vals {
+				d.Do(Ev{"op": "ovr.obs", "pkg": p.pkg, "val": v})
+			}
 			d.S.Boundary()
 		}
 	}
